@@ -212,7 +212,9 @@ def get_unescaped_str(string: str, qm: str) -> str:
     for i in string:
         if i == qm:
             out.append(f"\\{qm}")
-        elif ord(i) > 255 and not 0xD800 <= ord(i) <= 0xDFFF:
+        elif ord(i) > 127 and not 0xD800 <= ord(i) <= 0xDFFF:
+            # non-ASCII characters are written as they are: an escape would
+            # make a literal unusable inside a f-string replacement field.
             # lone surrogates can not be encoded in source text, escape them
             out.append(i)
         else:
